@@ -30,7 +30,7 @@ func RacePass(id, tier string) {
 		for _, sp := range univ.AllSpaces() {
 			limit := 40
 			if !quick {
-				limit = 400
+				limit = 100
 			}
 			n := 0
 			univ.Enumerate(sp.Slots, 1, func(picks []univ.Pick) {
@@ -92,7 +92,7 @@ func RacePass(id, tier string) {
 		slots, build := c18Space()
 		limit := 60
 		if !quick {
-			limit = 600
+			limit = 200
 		}
 		n := 0
 		univ.Enumerate(slots, 1, func(picks []univ.Pick) {
